@@ -40,7 +40,9 @@ def tasks(tier):
 
 def conformance(tier):
     # resolution must follow the rule on every call of a history, not only on the first one
-    return [_tm.native_c02(perms=False), dict(name="native:c04", argv=["seq_suite.py", "c04"], violation_on_fail=True)]
+    # ... and "applicable" in the rule is the documented meaning of the declared types (C13's bounded suite: special types such
+    # as Dataclass / Deferred / Exactly next to plain classes)
+    return [_tm.native_c02(perms=False), dict(name="native:c04", argv=["seq_suite.py", "c04"], violation_on_fail=True), dict(name="native:c13", argv=["suite.py", "c13_search"], violation_on_fail=True)]
 
 
 concretise = _tm.concretise_c02
